@@ -27,6 +27,7 @@ func main() {
 		"reflect struct layout of the encoded values = gen/C15_fields.v (C15.Model.conforms)",
 		"nodepool/hash.Controller.Reconcile annotations = C15.DriftModel.hash_reconcile",
 		"NewNodeClaimTemplate + ToNodeClaim labels in C15.DriftModel.claim_labels_allowed (Requirement.Any relational)",
+		"NewNodeClaimTemplate hash / hash-version stamp = C15.DriftModel.build_stamp (Hash() of the pool object, built after edits with the hash controller lagging or absent)",
 		"lifecycle.PopulateNodeClaimDetails labels = C15.DriftModel.populate",
 		"nodeclaim/disruption.Controller.Reconcile Drifted condition = C15.DriftModel.drift_reconcile (static, requirements, instance type, provider, cache, launch gate)",
 	}
